@@ -198,7 +198,7 @@ Proof.
   assert (Scale : forall du,
             (d = DSampled (match d with DSampled dt _ _ => dt | _ => fzero end) (match d with DSampled _ o _ => o | _ => None end) du \/
              d = DRange (match d with DRange t _ => t | _ => [] end) du) ->
-            scalePositions [p] [pe] [u] (dim_unit_str du) fone = Ok ([scaled sc p], [scaled sc pe])).
+            scalePositions [p] [pe] [u] (dim_unit_str du) = Ok ([scaled sc p], [scaled sc pe])).
   { intros du Hd. cbn [scalePositions].
     assert (Hs : spec_scaling u d = (if is_none_unit u then Some None
                                      else match du with None => None
